@@ -162,6 +162,78 @@ def check_module(src, filename, rnd, k_random=6, baseline_sample=None, visible=T
     return problems, info
 
 
+def attr_answer(proj, node):
+    """what the analysis gives for the receiver of an attribute access: sorted attribute names, or None"""
+    from supp.evaluator import EvalCtx
+    ctx = EvalCtx(proj)
+    v = ctx.evaluate(node.value)
+    if not v:
+        return None
+    return sorted(v.attr_list(ctx))
+
+
+def check_attribute_order(src, filename, rnd, n_nodes, n_fresh):
+    """Attribute evaluation (what completion after `expr.` rests on) must not depend on which other expressions of the module
+    were evaluated before: a sample of attribute accesses is evaluated front to back on one analysis, back to front on
+    another, and (a sub-sample) each as the first query of a fresh analysis.  -> (problems, stats)"""
+    proj = suppview.project()
+    s0, _ = suppview.analyse(src, filename, proj)
+    key = lambda n: (n.lineno, n.col_offset, n.end_col_offset)
+    attrs = [n for n in ast.walk(s0.tree) if isinstance(n, ast.Attribute) and isinstance(n.ctx, ast.Load) and n.end_lineno == n.lineno]
+    # receivers that go through attributes of self / instances are where the assignment tables come in
+    attrs.sort(key=key)
+    rnd.shuffle(attrs)
+    deep = [n for n in attrs if isinstance(n.value, (ast.Attribute, ast.Call))]
+    sample = (deep[:n_nodes * 2 // 3] + [n for n in attrs if n not in deep[:n_nodes * 2 // 3]])[:n_nodes]
+    keys = sorted(key(n) for n in sample)
+    stats = {'attribute_nodes': len(keys), 'attribute_queries': 0}
+    if len(keys) < 2:
+        return [], stats
+    runs = {}
+    for label, order in (('front-to-back', keys), ('back-to-front', keys[::-1])):
+        p = suppview.project()
+        s, _ = suppview.analyse(src, filename, p)
+        nodes = {key(n): n for n in ast.walk(s.tree) if isinstance(n, ast.Attribute)}
+        out = {}
+        for k in order:
+            out[k] = attr_answer(p, nodes[k])
+            stats['attribute_queries'] += 1
+        runs[label] = out
+    fresh = {}
+    for k in keys[::max(1, len(keys) // max(1, n_fresh))][:n_fresh]:
+        p = suppview.project()
+        s, _ = suppview.analyse(src, filename, p)
+        node = [n for n in ast.walk(s.tree) if isinstance(n, ast.Attribute) and key(n) == k][0]
+        fresh[k] = attr_answer(p, node)
+        stats['attribute_queries'] += 1
+    problems = []
+    for k in keys:
+        a, b = runs['front-to-back'][k], runs['back-to-front'][k]
+        if a != b:
+            problems.append(('attribute-answer-order-dependent', 'receiver of the attribute access at %s: %s attributes when the module is asked front to back, %s back to front (difference %s)' % (
+                k[:2], None if a is None else len(a), None if b is None else len(b), sorted(set(a or ()) ^ set(b or ()))[:6])))
+            break
+        if k in fresh and fresh[k] != a:
+            problems.append(('attribute-answer-differs-from-first-query', 'receiver of the attribute access at %s: %s attributes as the first query of a fresh analysis, %s after the accesses before it (difference %s)' % (
+                k[:2], None if fresh[k] is None else len(fresh[k]), None if a is None else len(a), sorted(set(a or ()) ^ set(fresh[k] or ()))[:6])))
+            break
+    return problems, stats
+
+
+def attribute_witness(src, filename, keys):
+    out = {}
+    for label, order in (('front-to-back', keys), ('back-to-front', keys[::-1])):
+        p = suppview.project()
+        s, _ = suppview.analyse(src, filename, p)
+        nodes = {(n.lineno, n.col_offset, n.end_col_offset): n for n in ast.walk(s.tree) if isinstance(n, ast.Attribute)}
+        out[label] = {k: attr_answer(p, nodes[k]) for k in order}
+    for k in keys:
+        if out['front-to-back'][k] != out['back-to-front'][k]:
+            return [('attribute-answer-order-dependent', 'attribute access at %s: %s vs %s attributes' % (
+                k[:2], len(out['front-to-back'][k] or ()), len(out['back-to-front'][k] or ())))]
+    return []
+
+
 def _short(a):
     if isinstance(a, tuple):
         return (a[0], a[1])
@@ -217,7 +289,7 @@ def w_programs(job):
 
 
 def w_files(job):
-    files, seed = job
+    files, seed, attr_nodes, attr_fresh, attr_max_bytes = job
     sh = Shard()
     rnd = random.Random(seed)
     for path in files:
@@ -249,11 +321,24 @@ def w_files(job):
         except Exception as e:
             sh.count('file-crash:%s' % type(e).__name__)     # totality is C08's subject
             continue
+        try:
+            if len(src) <= attr_max_bytes:
+                aprobs, astats = check_attribute_order(src, path, random.Random(core.derive_seed(seed, path)), attr_nodes, attr_fresh)
+                probs = list(probs) + aprobs
+                sh.count('attribute_queries', astats['attribute_queries'])
+                sh.count('files_with_attribute_order_check', 1 if astats['attribute_nodes'] >= 2 else 0)
+        except RecursionError:
+            sh.count('file-skipped:recursion')
+        except Exception as e:
+            hit = core.supp_crash(e)
+            if hit is None:
+                raise
+            sh.count('file-crash:%s' % type(e).__name__)     # totality is C08's subject
         sh.case(path, loop_read_count(tree) >= 2, {'file': os.path.relpath(path, '/'), 'reads': info['reads'], 'orders': info['orders']})
         sh.count('files')
         sh.count('file_queries', info['queries'])
         for sig, detail in probs:
-            sh.violation('file:' + sig, {'kind': 'file', 'path': path, 'seed': seed}, detail)
+            sh.violation('file:' + sig, {'kind': 'file', 'path': path, 'seed': seed, 'attr': [attr_nodes, attr_fresh]}, detail)
             break
     return sh.result()
 
@@ -490,7 +575,7 @@ def run(run):
     n = run.pick(25, 600)
     run.pmap(w_programs, [(i, core.derive_seed(run.seed, 'c04p', i), n) for i in range(16)])
     files = corpus.sample(core.derive_seed(run.seed, 'c04f'), run.pick(24, 600), include_repo=True, max_bytes=run.pick(40000, 400000))
-    run.pmap(w_files, [(sh_, core.derive_seed(run.seed, 'c04fs', i)) for i, sh_ in enumerate(corpus.shards(files, 16))])
+    run.pmap(w_files, [(sh_, core.derive_seed(run.seed, 'c04fs', i), run.pick(24, 120), run.pick(6, 20), run.pick(40000, 150000)) for i, sh_ in enumerate(corpus.shards(files, 16))])
     run.pmap(w_histories, [(i, core.derive_seed(run.seed, 'c04h', i), run.pick(80, 600)) for i in range(12)])
 
 
@@ -502,6 +587,11 @@ def replay(case):
         src = corpus.read(case['path'])
         probs, _ = check_module(src, case['path'], random.Random(case.get('seed', 0)), k_random=2,
                                 baseline_sample=lambda ps: ps[:40], visible=False)
+        if case.get('attr'):
+            probs = list(probs) + check_attribute_order(src, case['path'], random.Random(core.derive_seed(case.get('seed', 0), case['path'])),
+                                                        case['attr'][0], case['attr'][1])[0]
+        if case.get('attr_keys'):       # witness form: evaluate exactly these attribute accesses front to back / back to front
+            probs = list(probs) + attribute_witness(src, case['path'], [tuple(k) for k in case['attr_keys']])
     else:
         from supp.project import Project
         root = tempfile.mkdtemp(prefix='c04h_')
